@@ -635,8 +635,8 @@ impl<'a> Exec<'a> {
                 )
             }
         }
-        if o.recv_calls != 1 || o.other_stream_calls != 0 {
-            return self.fail("stream-call-count", format!("try_read made {} receive calls and {} other stream calls (exactly one receive expected)", o.recv_calls, o.other_stream_calls));
+        if o.recv_calls > 1 || o.other_stream_calls != 0 {
+            return self.fail("stream-call-count", format!("try_read made {} receive calls and {} other stream calls (at most one receive per call is allowed)", o.recv_calls, o.other_stream_calls));
         }
         if !o.delivered.is_empty() || !o.interim.is_empty() {
             return self.fail("empty-read-delivered", format!("an empty read delivered {} requests / {} responses", o.delivered.len(), o.interim.len()));
@@ -681,7 +681,7 @@ impl<'a> Exec<'a> {
         if !o.delivered.is_empty() {
             return self.fail("eof-delivered", format!("end of stream delivered {} requests", o.delivered.len()));
         }
-        if o.recv_calls != 1 || o.other_stream_calls != 0 {
+        if o.recv_calls > 1 || o.other_stream_calls != 0 {
             return self.fail("stream-call-count", format!("try_read made {} receive calls and {} other stream calls", o.recv_calls, o.other_stream_calls));
         }
     }
@@ -762,8 +762,8 @@ impl<'a> Exec<'a> {
         if let Some(p) = &o.pop_panic {
             return self.fail("panic", format!("pop_parsed_request: {}", p));
         }
-        if o.recv_calls > 1 || (o.recv_calls != 1 && !self.cfg.robust_only) || o.other_stream_calls != 0 {
-            return self.fail("stream-call-count", format!("try_read made {} receive calls and {} other stream calls (exactly one receive expected)", o.recv_calls, o.other_stream_calls));
+        if o.recv_calls > 1 || o.other_stream_calls != 0 {
+            return self.fail("stream-call-count", format!("try_read made {} receive calls and {} other stream calls (at most one receive per call is allowed)", o.recv_calls, o.other_stream_calls));
         }
         if o.write_calls_per_try_write_max > 1 {
             return self.fail("stream-call-count", format!("one try_write made {} write calls", o.write_calls_per_try_write_max));
